@@ -36,7 +36,25 @@ def query_guards(ctx, rule="R-C05.G.query"):
     len_guard(ctx, rule, f, ("query_rand", 4), "query_rand_len")
     len_guard(ctx, rule, f, ("joint_rand", 5), "joint_rand_len")
     # gadget part of the query randomness vs number of gadgets
-    ctx.require_guard(rule, f, "Ne", Len(Any()), Len(Call("gadget")), desc="len(query_rand_for_gadgets) != len(gadget())")
+    ge = ctx.require_guard(rule, f, "Ne", Len(Any()), Len(Call("gadget")), desc="len(query_rand_for_gadgets) != len(gadget())")
+    gadget_rand = None
+    if ge is not None:
+        c = ge.cond
+        gadget_rand = c[2][1] if Len(Call("gadget"))(c[3]) else c[3][1]
+        # it must be the tail of query_rand after the validity-compression part
+        key = "%s:%s:gadget-randomness-is-tail-of-query_rand" % (rule, f.id)
+        g0 = ctx.guards(f)
+        okk = False
+        if gadget_rand[0] == "field" and gadget_rand[2] == "1" and gadget_rand[1][0] == "phi":
+            from guards import phi_defs
+            defs = phi_defs(g0, gadget_rand[1][1])
+            okk = len(defs) == 2 and all(Call("split_at", Arg(4), Any())(d[0]) for d in defs) and \
+                any(Call("split_at", Arg(4), Call("eval_output_len"))(d[0]) for d in defs) and \
+                any(Call("split_at", Arg(4), Lit(0))(d[0]) for d in defs)
+        if okk:
+            ctx.ok(rule, key, "query_rand_for_gadgets = query_rand.split_at(eval_output_len() or 0).1", loc=f.loc)
+        else:
+            ctx.bad(rule, key, "the gadget part of the query randomness is not query_rand.split_at(eval_output_len()|0).1: %s" % fmt(gadget_rand)[:120], loc=f.loc)
     # root-of-unity refusal, for every gadget
     pow_call = Call("pow", Any(), Mentions(Call("wire_poly_len", Mentions(Call("calls")))))
     e = ctx.require_guard(rule, f, "Eq", pow_call, Call("one"), every_iteration=True,
@@ -48,7 +66,7 @@ def query_guards(ctx, rule="R-C05.G.query"):
         if src is None:
             ctx.bad(rule, key, "cannot identify the iterator of the root-of-unity loop", loc=f.loc)
         else:
-            has_gadget = Mentions(Call("gadget"))(src)
+            has_gadget = Mentions(Call("gadget"))(src) and gadget_rand is not None and Call("zip", Any(), lambda x: x == gadget_rand)(src)
             adapters = [x[1] for x in walk(src) if isinstance(x, tuple) and x[0] == "call"
                         and x[1].split("::")[-1] in bad_adapters]
             g = ctx.guards(f)
@@ -60,6 +78,24 @@ def query_guards(ctx, rule="R-C05.G.query"):
             else:
                 ctx.bad(rule, key, "root-of-unity loop does not cover every gadget: source=%s adapters=%s header-dominates-accept=%s"
                         % (fmt(src)[:200], adapters, hdr_dom), loc=f.loc)
+        # the point at which the gadget polynomials are evaluated later is the checked randomness
+        key3 = "%s:%s:evaluation-point-is-the-checked-randomness" % (rule, f.id)
+        g3 = ctx.guards(f)
+        evs = [(bi, g3.eb.call_expr(t)) for bi, t in f.body.calls() if t.callee.name == "poly_eval_lagrange_batched"]
+        okk = bool(evs) and gadget_rand is not None
+        for bi, ce in evs:
+            class _E:
+                block = bi
+            s2 = ctx.loop_source(f, _E)
+            if s2 is None or not Call("zip", lambda x: x == gadget_rand, Any())(s2):
+                okk = False
+            pt = ce[2][1]
+            if not (pt[0] == "field" and pt[2] == "0" and Mentions(Call("next"))(pt)):
+                okk = False
+        if okk:
+            ctx.ok(rule, key3, "poly_eval_lagrange_batched is evaluated at the elements of the checked gadget randomness", loc=f.loc)
+        else:
+            ctx.bad(rule, key3, "gadget polynomials are not evaluated at the randomness that was checked against roots of unity", loc=f.loc)
         # the refusal must precede any use of the proof in the gadget shims: the loop dominates the
         # construction of the query shims (the `map` closure over gadget())
         g = ctx.guards(f)
